@@ -5,6 +5,7 @@ import (
 	"go/constant"
 	"go/token"
 	"go/types"
+	"sort"
 	"strings"
 
 	"golang.org/x/tools/go/ssa"
@@ -144,20 +145,21 @@ func ruleRestC06(c *Ctx, u *Universe) {
 				continue
 			}
 			nDecl++
-			origin := nameOrigin(u, call.Common().Args[1])
-			key := fmt.Sprintf("%s:declare(%s)", u.fname(f), origin)
-			want, known := expect[origin]
-			if !known {
-				R.undecided("C06.const", key, u.pos(call.Pos()), "binding site whose name origin the table does not list ("+origin+"): decide whether it must be constant and add it to the table")
-				continue
+			for _, origin := range nameOrigins(u, call.Common().Args[1]) {
+				key := fmt.Sprintf("%s:declare(%s)", u.fname(f), origin)
+				want, known := expect[origin]
+				if !known {
+					R.undecided("C06.const", key, u.pos(call.Pos()), "binding site whose name origin the table does not list ("+origin+"): decide whether it must be constant and add it to the table")
+					continue
+				}
+				byOrigin[origin] = append(byOrigin[origin], v)
+				if want == "by-kind" {
+					// checked below: both variants present, selected by the VDTypeAssignConst test
+					continue
+				}
+				R.check(v == want, "C06.const", key+":"+siteName(u, f, call), u.pos(call.Pos()), "bound with the "+v+" variant as the manual prescribes",
+					fmt.Sprintf("name from %s is bound with the %s variant, the manual prescribes %s", origin, v, want))
 			}
-			byOrigin[origin] = append(byOrigin[origin], v)
-			if want == "by-kind" {
-				// checked below: both variants present, selected by the VDTypeAssignConst test
-				continue
-			}
-			R.check(v == want, "C06.const", key+":"+siteName(u, f, call), u.pos(call.Pos()), "bound with the "+v+" variant as the manual prescribes",
-				fmt.Sprintf("name from %s is bound with the %s variant, the manual prescribes %s", origin, v, want))
 		}
 	}
 	// 令: const variant exactly on the VDTypeAssignConst edge
@@ -249,21 +251,20 @@ func ruleRestC06(c *Ctx, u *Universe) {
 		inner := u.callsNamed(f, m.inner)
 		ok := len(inner) == 1
 		if ok {
-			ok = false
-			for _, d := range f.Blocks {
-				ifi, isIf := d.Instrs[len(d.Instrs)-1].(*ssa.If)
-				if !isIf {
-					continue
-				}
+			// the scope is reached only where `name in vm.globals` is known false: by a test in this function or
+			// through a guard helper whose passing returns lie behind that test
+			notInGlobals := func(fn *ssa.Function, ifi *ssa.If, _ ssa.Value) (int, bool) {
 				// cond = Extract(Lookup(vm.globals, name), 1)
 				if ex, isEx := ifi.Cond.(*ssa.Extract); isEx && ex.Index == 1 {
 					if lk, isLk := ex.Tuple.(*ssa.Lookup); isLk {
-						if _, isG := fieldLoad(lk.X, "globals"); isG && edgeDominates(d, d.Succs[1], inner[0].Block()) {
-							ok = true
+						if _, isG := fieldLoad(lk.X, "globals"); isG {
+							return 1, true
 						}
 					}
 				}
+				return 0, false
 			}
+			ok = establishedAt(u, f, inner[0].Block(), nil, notInGlobals, 2)
 		}
 		R.check(ok, "C06.globals", "pkg/runtime."+m.name, u.pos(f.Pos()), "a predefined name is rejected (NameRedeclared) before the scope is touched", "a predefined name can be redeclared: the scope is reached without the vm.globals test")
 	}
@@ -335,10 +336,26 @@ func ruleRestC06(c *Ctx, u *Universe) {
 						okConst = false
 					}
 				}
-				// name match: `locals[i].name == name`
+			}
+		}
+		// name match `locals[i].name == name` (in SetValue or in the lookup helper it calls): after a match no
+		// further iteration - the match test is not reachable from its true edge
+		searchIn := []*ssa.Function{f}
+		for _, in := range instrsOf(f) {
+			if call, ok := in.(ssa.CallInstruction); ok {
+				if callee := call.Common().StaticCallee(); callee != nil && callee.Pkg == f.Pkg && callee.Blocks != nil {
+					searchIn = append(searchIn, callee)
+				}
+			}
+		}
+		for _, g := range searchIn {
+			for _, d := range g.Blocks {
+				ifi, ok := d.Instrs[len(d.Instrs)-1].(*ssa.If)
+				if !ok {
+					continue
+				}
 				if bo, ok := ifi.Cond.(*ssa.BinOp); ok && bo.Op == token.EQL {
 					if _, isN := fieldLoad(bo.X, "name"); isN {
-						// after a match no further iteration: the match test is not reachable from its true edge
 						okFirst = reachableAvoiding(d.Succs[0], 0, func(x ssa.Instruction) bool { return x == ssa.Instruction(ifi) }, nil) == nil
 					}
 				}
@@ -390,63 +407,104 @@ func ruleRestC06(c *Ctx, u *Universe) {
 }
 
 // nameOrigin classifies where the *IDName argument of a Declare* call comes from
-func nameOrigin(u *Universe, v ssa.Value) string {
-	origin := "?"
+// nameOrigins: the syntax fields / constants the bound name can come from. Parameters are followed to the
+// static call sites of the function (helpers that bind on behalf of their caller), captured variables to
+// the enclosing function's cell.
+func nameOrigins(u *Universe, v ssa.Value) []string {
+	origins := map[string]bool{}
 	seen := map[ssa.Value]bool{}
-	var walk func(v ssa.Value)
-	walk = func(v ssa.Value) {
-		if v == nil || seen[v] || origin != "?" {
+	var walk func(v ssa.Value, depth int)
+	walk = func(v ssa.Value, depth int) {
+		if v == nil || seen[v] {
 			return
 		}
 		seen[v] = true
 		switch x := v.(type) {
 		case *ssa.Phi:
 			for _, e := range x.Edges {
-				walk(e)
+				walk(e, depth)
 			}
 		case *ssa.Extract:
-			walk(x.Tuple)
+			walk(x.Tuple, depth)
 		case *ssa.Call:
 			switch u.callName(x) {
 			case "pkg/exec.MatchIDName":
-				walk(x.Call.Args[0])
+				walk(x.Call.Args[0], depth)
 			case "pkg/runtime.NewIDName":
 				a := x.Call.Args[0]
 				if k, ok := a.(*ssa.Const); ok && k.Value != nil {
-					origin = constantString(k.Value)
+					origins[constantString(k.Value)] = true
 					return
 				}
 				// name string from a map range / slice of strings: import of exported names
-				origin = "import"
+				origins["import"] = true
+			default:
+				origins["?"] = true
+			}
+		case *ssa.Parameter:
+			fn := x.Parent()
+			idx := -1
+			for i, q := range fn.Params {
+				if q == x {
+					idx = i
+				}
+			}
+			sites := u.staticCallers(fn)
+			if idx < 0 || len(sites) == 0 || depth >= 3 {
+				origins["?"] = true
+				return
+			}
+			for _, cs := range sites {
+				args := cs.Common().Args
+				if idx < len(args) {
+					walk(args[idx], depth+1)
+				}
 			}
 		case *ssa.UnOp:
 			if x.Op == token.MUL {
 				switch a := x.X.(type) {
 				case *ssa.FieldAddr:
-					origin = fieldAddrName(a)
+					origins[fieldAddrName(a)] = true
 				case *ssa.IndexAddr:
-					walk(a.X)
+					walk(a.X, depth)
 				case *ssa.Alloc:
 					// local variable (possibly captured): look at what is stored
 					for _, r := range *a.Referrers() {
 						if st, ok := r.(*ssa.Store); ok && st.Addr == a {
-							walk(st.Val)
+							walk(st.Val, depth)
 						}
 					}
 				case *ssa.FreeVar:
-					origin = "freevar:" + a.Name()
+					origins["freevar:"+a.Name()] = true
 				}
 			}
 		case *ssa.Field:
 			if st, ok := x.X.Type().Underlying().(*types.Struct); ok {
-				origin = recvNamed(x.X.Type()) + "." + st.Field(x.Field).Name()
+				origins[recvNamed(x.X.Type())+"."+st.Field(x.Field).Name()] = true
 			}
 		case *ssa.Index:
-			walk(x.X)
+			walk(x.X, depth)
 		case *ssa.Slice:
-			walk(x.X)
+			walk(x.X, depth)
 		}
 	}
-	walk(v)
-	return origin
+	walk(v, 0)
+	var out []string
+	for o := range origins {
+		out = append(out, o)
+	}
+	sort.Strings(out)
+	if len(out) == 0 {
+		out = []string{"?"}
+	}
+	return out
+}
+
+// nameOrigin: the single origin of a bound name ("?" when it has several or none)
+func nameOrigin(u *Universe, v ssa.Value) string {
+	os := nameOrigins(u, v)
+	if len(os) == 1 {
+		return os[0]
+	}
+	return "?"
 }
